@@ -559,8 +559,17 @@ func recalcObjsPerSyncMsg(pods, ctrs int, err error) (int, int, error) {
 		factor = 0.9
 	}
 
-	pods = int(float64(pods) * factor)
-	ctrs = int(float64(ctrs) * factor)
+	newPods := int(float64(pods) * factor)
+	newCtrs := int(float64(ctrs) * factor)
+
+	// never scale a non-empty share down to zero: those objects would never be sent
+	if pods > 0 && newPods == 0 {
+		newPods = 1
+	}
+	if ctrs > 0 && newCtrs == 0 {
+		newCtrs = 1
+	}
+	pods, ctrs = newPods, newCtrs
 
 	if pods+ctrs < minObjsPerMsg {
 		pods = minObjsPerMsg / 2
